@@ -89,6 +89,11 @@ def _handler(tag):
             stream_write("<info>L1</info>", F.VERBOSE)
             stream_write("<info>L2</info>", F.VERY_VERBOSE)
             stream_write("<info>L3</info>", F.DEBUG)
+        for raw_write in (io.write_line_raw, io.error_line_raw):        # raw lines are gated by the same levels
+            raw_write("R0")
+            raw_write("R1", F.VERBOSE)
+            raw_write("R2", F.VERY_VERBOSE)
+            raw_write("R3", F.DEBUG)
         if STATE["raises"]:
             raise Failure("handler failed")
         return 0
@@ -110,13 +115,17 @@ def build():
     st.set_description("Starts")
     st.add_argument("port", Argument.OPTIONAL, "Port")
     st.set_handler(CallbackHandler(_handler("serve start")))
+    sh = s.create_sub_command("help")              # a nested sub-command that is called like the help command
+    sh.set_description("Explains serve")
+    sh.add_argument("topic", Argument.OPTIONAL, "Topic")
+    sh.set_handler(CallbackHandler(_handler("serve help")))
     e = cfg.create_command("echo")
     e.add_argument("words", Argument.MULTI_VALUED, "Words")
     e.set_handler(CallbackHandler(_handler("echo")))
     return ConsoleApplication(cfg)
 
 
-BASES = [(["greet"], ["bob"], "greet"), (["serve", "start"], ["80"], "serve start"), (["echo"], ["a", "b"], "echo")]
+BASES = [(["greet"], ["bob"], "greet"), (["serve", "start"], ["80"], "serve start"), (["echo"], ["a", "b"], "echo"), (["serve", "help"], ["ports"], "serve help")]
 VERB = [None, "-v", "-vv", "-vvv"]
 SPELL = {"q": ("--quiet", "-q"), "n": ("--no-interaction", "-n"), "h": ("--help", "-h"), "V": ("--version", "-V")}
 
@@ -152,6 +161,8 @@ def _lines(level, decorated):
     txt = ""
     for k in range(level + 1):
         txt += ("\x1b[32mL%d\x1b[0m" % k if decorated else "L%d" % k) + "\n"
+    for k in range(level + 1):
+        txt += "R%d\n" % k
     return txt
 
 
@@ -200,7 +211,7 @@ def _case(base_i, q, verb, ansi, n, hv, short, pos, raises, rotate):
                 return False
         return True
     # an ordinary run: the selected command's handler ran once with its arguments
-    exp_args = {"greet": {"name": "bob"}, "serve start": {"port": "80"}, "echo": {"words": ["a", "b"]}}[full_name]
+    exp_args = {"greet": {"name": "bob"}, "serve start": {"port": "80"}, "echo": {"words": ["a", "b"]}, "serve help": {"topic": "ports"}}[full_name]
     if len(calls) != 1 or calls[0][0] != full_name or calls[0][1] != exp_args:
         return False
     if calls[0][2] != ((True, False, 1, "8080") if n else (False, True)):     # -n: both questions return their defaults (yes / no) without reading; otherwise the typed 'n' / 'y'
@@ -313,7 +324,7 @@ def conditions(tier):
     quick = tier == "quick"
     t = 120 if quick else 1500
     conds = []
-    for base in range(3):
+    for base in range(len(BASES)):
         for verb in range(4):
             conds.append({"name": "switches[%s,%s]" % (BASES[base][2].replace(" ", "_"), VERB[verb] or "normal"), "fn": switches, "timeout": t, "part": {"base": base, "verb": verb},
                           "bounds": "command %r, verbosity switch %s; symbolic: quiet, --ansi/--no-ansi, no-interaction, help/version, long/short spelling, insertion position, switch order, handler raises" % (BASES[base][2], VERB[verb])})
